@@ -42,6 +42,8 @@ def markov_generator(rng, dims):
     n = int(np.prod(dims))
     Q = rng.random((n, n)) * (rng.random((n, n)) < 0.5)
     np.fill_diagonal(Q, 0.0)
+    if not np.any(Q):  # the zero operator is inadmissible for the relative truncation thresholds used inside the schemes (0/0)
+        Q[1 % n, 0] = 1.0
     Q = Q - np.diag(Q.sum(axis=0))
     Q = Q / max(np.max(np.abs(np.diag(Q))), 1e-12)
     with probe.oracle():
